@@ -204,6 +204,16 @@ def sdSpecRun : SDSpec K V → List (SOp K V) → SDSpec K V × List (Res K V)
     let t := sdSpecRun r.1 ops
     (t.1, r.2 :: t.2)
 
+/-- "sd[k] is the last strategy assigned to the name k", read off a StrategyDict history alone: the
+    strategy of the last assignment (that did not raise) whose names contain `k`, unless `k` was deleted
+    afterwards.  (A deletion through the attribute, `del sd.k`, is state dependent — it removes the item
+    only when attribute and item are equal — and is excluded by hypothesis where this is used.) -/
+def sdLastAssigned (k : K) : List (SOp K V) → Option V → Option V
+  | [], cur => cur
+  | .set keys v :: ops, cur => sdLastAssigned k ops (if k ∈ keys then some v else cur)
+  | .del k' :: ops, cur => sdLastAssigned k ops (if k' = k then none else cur)
+  | _ :: ops, cur => sdLastAssigned k ops cur
+
 /-- the StrategyDict state `s` represents the abstract state `g` -/
 structure SDRep (s : SD K V) (g : SDSpec K V) : Prop where
   rep : Rep s.mkd g.log
